@@ -87,8 +87,17 @@ pub fn keypaths(v: &RVal, maxlen: usize, with_extremes: bool) -> Vec<Vec<KP>> {
     out
 }
 
+/// keys whose Unicode case mappings differ from their ASCII ones: KELVIN SIGN folds to k, sharp s
+/// upper-cases to SS, dotted/dotless i; none of them may match under ASCII case-insensitivity
+pub const UNICODE_CASE_KEYS: [&str; 13] = ["k", "K", "\u{212A}", "ß", "ẞ", "SS", "ss", "é", "É", "i", "I", "İ", "ı"];
+
 pub fn names_for(v: &RVal) -> Vec<String> {
     let mut names: Vec<String> = vec!["zz".into(), "".into()];
+    if let RVal::Obj(o) = v {
+        if !o.is_empty() && o.keys().all(|k| UNICODE_CASE_KEYS.contains(&k.as_str())) {
+            names.extend(UNICODE_CASE_KEYS.iter().map(|s| s.to_string()));
+        }
+    }
     // documents of the key-order universe are probed with every key of that universe
     if let RVal::Obj(o) = v {
         if !o.is_empty() && o.keys().all(|k| refmodel::gen::ORDER_KEYS.contains(&k.as_str())) {
@@ -421,7 +430,7 @@ fn casts(v: &RVal, b: &[u8], acc: &mut Acc) {
     }
 }
 
-fn case_objects() -> Vec<RVal> {
+pub fn case_objects() -> Vec<RVal> {
     let keys = ["a", "A", "ab", "aB", "Ab", "AB", "b"];
     let mut out = vec![];
     for mask in 1u32..(1 << keys.len()) {
@@ -431,6 +440,22 @@ fn case_objects() -> Vec<RVal> {
         let mut m = std::collections::BTreeMap::new();
         let mut n = 0u64;
         for (i, k) in keys.iter().enumerate() {
+            if mask & (1 << i) != 0 {
+                n += 1;
+                m.insert(k.to_string(), if n == 2 { RVal::s("two") } else { RVal::u(n * 300) });
+            }
+        }
+        out.push(RVal::Obj(m));
+    }
+    // every subset of <= 3 of the Unicode case keys
+    let uk = UNICODE_CASE_KEYS;
+    for mask in 1u32..(1 << uk.len()) {
+        if mask.count_ones() > 3 {
+            continue;
+        }
+        let mut m = std::collections::BTreeMap::new();
+        let mut n = 0u64;
+        for (i, k) in uk.iter().enumerate() {
             if mask & (1 << i) != 0 {
                 n += 1;
                 m.insert(k.to_string(), if n == 2 { RVal::s("two") } else { RVal::u(n * 300) });
